@@ -149,7 +149,8 @@ let handle (toks : string list) : string =
   match toks with
   | ["D"; bs; chunk; oldh; newh] ->
       (* delta: checksums, in-memory ops, streaming ops, both applied *)
-      let bs = z_of_int (int_of_string bs) and chunk = z_of_int (int_of_string chunk) in
+      (* the chunk of the streaming generator holds at least one block (Delta.stream_chunk) *)
+      let bs = z_of_int (int_of_string bs) in let chunk = Z.max (z_of_int (int_of_string chunk)) bs in
       let old = bytes_of_hex oldh and nw = bytes_of_hex newh in
       let cks = cks_id bs old in
       let m = gen_mem_id bs old nw in
@@ -158,7 +159,8 @@ let handle (toks : string list) : string =
         (str_of_cks cks) (str_of_ops_opt m) (str_of_ops_opt s) (app_str old m) (app_str old s)
   | ["DS"; bs; chunk; oldh; newh] ->
       (* streaming generator only (large inputs) *)
-      let bs = z_of_int (int_of_string bs) and chunk = z_of_int (int_of_string chunk) in
+      (* the chunk of the streaming generator holds at least one block (Delta.stream_chunk) *)
+      let bs = z_of_int (int_of_string bs) in let chunk = Z.max (z_of_int (int_of_string chunk)) bs in
       let old = bytes_of_hex oldh and nw = bytes_of_hex newh in
       let s = gen_stream_id chunk bs old nw in
       Printf.sprintf "str=%s apps=%s" (str_of_ops_opt s) (app_str old s)
